@@ -15,6 +15,7 @@ SLP = P([0.3, 0.1], [1.7, 0.6], [-0.2, 1.3])
 SLP_CW = P([0.3, 0.1], [-0.2, 1.3], [1.7, 0.6])
 THIN = P([-1, -0.4], [3, 0.6], [-1.1, 0.0])
 RECT = P([-0.5, 0.2], [1.5, 0.2], [-0.5, 0.7])
+P_R60 = P([1.0, 0.5], [2.0, 2.2320508], [0.1339746, 1.0])      # 2x1 rectangle rotated by 60 degrees, given by its corners
 C1 = C([0, 0], 1)
 C2 = C([0.4, -0.3], 0.5)
 C3 = C([3, -2], 0.7)
@@ -78,7 +79,7 @@ def _seconds2(tier):
 
 
 def leaves2(tier):
-    out = [SQ, SQ_CW, SLP, C1, C2, TR, TSL, LSH, C_MOVE, C_GROW, SQ_MOVE, SQ_GROW, TR_GROW]
+    out = [SQ, SQ_CW, SLP, P_R60, C1, C2, TR, TSL, LSH, C_MOVE, C_GROW, SQ_MOVE, SQ_GROW, TR_GROW]
     if tier == "thorough":
         out += [SLP_CW, THIN, RECT, C3, TCW, HOLE, C_BOTH, SLP_T, TR_MOVE, C_ST]
     return out
